@@ -35,10 +35,6 @@ func TestMain(m *testing.M) {
 	os.Exit(m.Run())
 }
 
-// exclusion tag of the known finding "a re-encoding defeats the replay record": with it
-// active only the byte-identical resubmission is drawn for natively signed kinds.
-const exclNoncanonical = "C05:noncanonical-native"
-
 // exclusion tag for OLVM originals whose nonce is above the account's next nonce.
 const exclNonceGap = "C05:olvm-nonce-gap"
 
@@ -381,9 +377,6 @@ func buildEncs(kind string, orig []byte, c chooser, excl func(string) bool) ([]E
 	var out []Enc
 	native := kind != "OLVM"
 	for _, op := range opNames {
-		if native && op != "identity" && excl != nil && excl(exclNoncanonical) {
-			continue
-		}
 		out = append(out, Enc{op, reencode(tree, op, c)})
 	}
 	if !native {
@@ -606,12 +599,6 @@ func FuzzC05(f *testing.F) {
 			return
 		}
 		kind := fz.kinds[int(data[0])%len(fz.kinds)]
-		if kind != "OLVM" && fuzzExcluded(exclNoncanonical) {
-			kind = "OLVM" // the native non-canonical part is the known finding
-			if fz.origs[kind] == nil {
-				return
-			}
-		}
 		orig := fz.origs[kind]
 		tree, err := parseTree(orig)
 		if err != nil {
